@@ -2,7 +2,7 @@
 # usage: seedcheck.sh <Cxx> <A|B>  — confirm a sub-agent's seeded defect and run all checks against it
 set -u
 id=$1; ab=$2
-src=/tmp/seed-out/$id/$ab
+src=${SEEDROOT:-/tmp/seed-out}/$id/$ab
 [ -f $src/patch.diff ] || { echo "no patch for $id/$ab"; exit 2; }
 export GOFLAGS=-mod=mod GOPROXY=off GOSUMDB=off GOTOOLCHAIN=local GOWORK=off
 wt=/tmp/sc-$id-$ab
